@@ -308,6 +308,10 @@ pub trait Text: LitLike<LBytes = <Self as Text>::Bytes> + Index<Range<usize>, Ou
     fn as_str(&self) -> Option<&str>;
     /// The symbolic text, if this is one.
     fn as_sym(&self) -> Option<&SymStr>;
+    /// Concrete bytes standing for this text: the text itself, or for a symbolic text the
+    /// smallest value each byte can take under the current path condition (used only by the
+    /// fallback rewrite of `prev_codepoint_ix`, when its byte test cannot be made generic).
+    fn representative_bytes(&self) -> Vec<u8>;
 
     /// Run the repository's VM on this text.
     fn run_vm(
@@ -349,6 +353,9 @@ impl Text for str {
     }
     fn as_sym(&self) -> Option<&SymStr> {
         None
+    }
+    fn representative_bytes(&self) -> Vec<u8> {
+        str::as_bytes(self).to_vec()
     }
     fn run_vm(
         &self,
@@ -446,6 +453,12 @@ impl Text for SymStr {
     }
     fn as_sym(&self) -> Option<&SymStr> {
         Some(self)
+    }
+    fn representative_bytes(&self) -> Vec<u8> {
+        self.0.iter().map(|b| match b.concrete() {
+            Some(v) => v,
+            None => engine::min_value(&b.term()),
+        }).collect()
     }
     fn run_vm(
         &self,
